@@ -5,95 +5,10 @@ import re
 
 import vcheck
 
-# ---------------------------------------------------------------------------------------------------
-# F18: compiledLogicalAnd.emitGetter(putOnStack=false) with a constant falsy left operand emits the literal
-# anyway (compiler_expr.go:2672).  emitGetter(false) is called directly (not through emitExpr, which would
-# fold the whole expression) for the non-final operands of a comma expression and for the init / update
-# expressions of a for statement.
-FALSY = r"(?:false|null|undefined|NaN|void 0|-?0n?|\"\"|''|0x0|0b0|0o0|\.0|0\.0?)"
-F18_RE = re.compile(r"(?<![\w$.\"'`)\]])" + FALSY + r"\s*&&")
-
-
 def src_of(case):
     if case.get("b64"):
         return base64.b64decode(case["b64"]).decode("utf-8", "replace")
     return case.get("src", "")
-
-
-# F20: an optional call with a spread argument, f?.(...a): when f is null/undefined, joptc jumps past BOTH
-# callVariadic and endVariadic, so the variadic marker pushed by startVariadic stays on the operand stack.
-F20_RE = re.compile(r"\?\.\s*\(")
-
-
-def neutralise(case):
-    """(rewritten case, ids of the known-finding patterns that were present).  F18: every constant falsy left
-    operand of && is replaced by the non-constant global z (the compiler then takes the ordinary jne path);
-    F20: every optional call ?.( becomes a plain call.  Nothing else changes."""
-    src = src_of(case)
-    ids = []
-    new = F18_RE.sub("z &&", src)
-    if new != src:
-        ids.append("F18")
-    if "..." in new and F20_RE.search(new):
-        new = F20_RE.sub("(", new)
-        ids.append("F20")
-    if not ids:
-        return None, []
-    c = dict(case)
-    c.pop("b64", None)
-    c["src"] = new
-    return c, ids
-
-
-def pred_f18(case, record, expected_text):
-    # used by the generic path (corpus / --replay): shape of the input and of the observation
-    if not F18_RE.search(src_of(case)):
-        return False
-    obs = record.get("obs", "")
-    m = re.match(r"crash=(\d+)", obs)
-    crash = int(m.group(1)) if m else 0
-    # verifier rejection (diag 2), leaked operand seen by VerifIdle (16), or the type-confused instruction panicking (1)
-    return (crash & ~(16 | 1)) == 0
-
-
-def pred_f20(case, record, expected_text):
-    src = src_of(case)
-    if not ("..." in src and F20_RE.search(src)):
-        return False
-    m = re.match(r"crash=(\d+)", record.get("obs", ""))
-    crash = int(m.group(1)) if m else 0
-    return (crash & ~(16 | 1)) == 0
-
-
-# F21: a lexical declaration that follows an unconditional continue/break in a block of global (or eval) code
-F21_RE = re.compile(r"\b(?:continue|break)\b[^;{}]*;[^{}]*?\b(?:let|const|class)\b")
-
-
-def pred_f21(case, record, expected_text):
-    obs = record.get("obs", "")
-    m = re.match(r"crash=(\d+)", obs)
-    crash = int(m.group(1)) if m else 0
-    return crash == 8 and "Lexical declaration for an unbound name" in obs and bool(F21_RE.search(src_of(case)))
-
-
-F22_RE = re.compile(r"\bswitch\b.*\b(?:let|const|class)\b.*\b(?:eval\s*\(|with\s*\()", re.S)
-
-
-def pred_f22(case, record, expected_text):
-    obs = record.get("obs", "")
-    m = re.match(r"crash=(\d+)", obs)
-    crash = int(m.group(1)) if m else 0
-    return crash == 64 and "absurd-operand:enterBlock.stackSize=4294967295" in obs and bool(F22_RE.search(src_of(case)))
-
-
-F23_RE = re.compile(r"#[A-Za-z_$][\w$]*(?!\s+in\b)")
-
-
-def pred_f23(case, record, expected_text):
-    obs = record.get("obs", "")
-    m = re.match(r"crash=(\d+)", obs)
-    crash = int(m.group(1)) if m else 0
-    return crash == 8 and "Unknown expression type: *ast.PrivateIdentifier" in obs and bool(F23_RE.search(src_of(case)))
 
 
 def candidates(case):
@@ -127,60 +42,17 @@ def stage(ctx):
     if not binp or not getattr(ctx, "model_ok", True):
         return
     all_recs = []
-    known = {k["id"]: k for k in vcheck.load_known()["open"] if k["property"] == ctx.pid}
-
     def process(recs, source):
         bad, errs, _ = vcheck.coq_eval(ctx, recs, tag="g" if source == "generated" else "c")
         for e in errs:
             ctx.log("coq eval error (%s): %s" % (source, e[-800:]))
             ctx.eval_errors = True
         ctx.log("%s: %d cases, %d mismatches" % (source, len(recs), len(bad)))
-        todo, rest = [], []
-        bad0, bad = bad, []
-        for i in bad0:
-            # crash-oracle findings recognised on the observation itself
-            hit = None
-            for fid, fn in (("F21", pred_f21), ("F22", pred_f22), ("F23", pred_f23)):
-                if fid in known and fn(recs[i]["case"], recs[i], ""):
-                    hit = fid
-                    break
-            if hit:
-                ctx.cov["known_%s_cases" % hit] = ctx.cov.get("known_%s_cases" % hit, 0) + 1
-                if not any("[%s]" % hit in l for l in ctx.known_lines):
-                    line = "KNOWN-FINDING: property=%s %s [%s]" % (ctx.pid, known[hit]["what"], hit)
-                    print(line, flush=True)
-                    ctx.known_lines.append(line)
-            else:
-                bad.append(i)
-        for i in bad:
-            c, ids = neutralise(recs[i]["case"])
-            if c is not None and all(x in known for x in ids):
-                todo.append((i, c, ids))
-            else:
-                rest.append(i)
-        if todo:
-            rr = vcheck.harness_replay(ctx, binp, [c for _, c, _ in todo], tag="neutral")
-            if len(rr) == len(todo):
-                b2, errs2, _ = vcheck.coq_eval(ctx, rr, tag="n")
-                still = set(b2)
-                hits = {}
-                for j, (i, _, ids) in enumerate(todo):
-                    if j in still or errs2:
-                        rest.append(i)
-                    else:
-                        for x in ids:
-                            hits[x] = hits.get(x, 0) + 1
-                for x, nk in sorted(hits.items()):
-                    ctx.cov["known_" + x + "_cases"] = ctx.cov.get("known_" + x + "_cases", 0) + nk
-                    if not any("[%s]" % x in l for l in ctx.known_lines):
-                        line = "KNOWN-FINDING: property=%s %s [%s]" % (ctx.pid, known[x]["what"], x)
-                        print(line, flush=True)
-                        ctx.known_lines.append(line)
-            else:
-                rest += [i for i, _, _ in todo]
-        if rest:
-            vcheck.handle_mismatches(ctx, binp, recs, sorted(rest), source)
-        return len(bad0)
+        if bad:
+            # no finding of C01 is open: every mismatch is shrunk and reported (F18, F20-F23 are fixed in /repo;
+            # their corpus cases are plain regressions)
+            vcheck.handle_mismatches(ctx, binp, recs, bad, source)
+        return len(bad)
 
     corpus_dir = os.path.join(vcheck.ROOT, "corpus", ctx.pid)
     corpus_cases = []
@@ -195,7 +67,7 @@ def stage(ctx):
         nbad += process(recs, "corpus")
         all_recs += recs
     n = cfg["n"][ctx.tier]
-    recs = vcheck.harness_gen(ctx, binp, n, ctx.seed)
+    recs = vcheck.harness_gen(ctx, binp, n, ctx.seed, extra=cfg.get("gen_extra"))
     nbad += process(recs, "generated")
     all_recs += recs
     vcheck.summarize(ctx, all_recs, nbad)
@@ -228,8 +100,9 @@ CFG = {
     "prop_file": "Properties/C01.v",
     "run_modules": ["Verif.C01.Run"],
     "coq_dirs": ["C01"],
-    "n": {"quick": 256, "thorough": 300000},
-    "shard": 45,
+    "n": {"quick": 4000, "thorough": 400000},
+    "gen_extra": "vp=80",
+    "shard": 250,
     "max_report": 2,
     "level": "translation_validation",
     "stages": [stage],
@@ -257,11 +130,7 @@ CFG = {
         "builtins, the parser and the lexer are covered only by the crash search, not by proof",
         "an instruction kind missing from the table makes the verifier skip the body (reported as coverage gap)",
     ],
-    "predicates": {"C01.constant_falsy_and_in_discarded_position": pred_f18,
-                   "C01.optional_call_with_spread_argument": pred_f20,
-                   "C01.lexical_declaration_after_continue_or_break": pred_f21,
-                   "C01.switch_lexical_with_dynamic_scope_stacksize_underflow": pred_f22,
-                   "C01.private_identifier_as_expression": pred_f23},
+    "predicates": {},
     "manifest": {
         "text": ("translation validation, partial: a bytecode verifier (work-list abstract interpretation of operand-stack height, stack "
                  "locals, variadic markers and the try stack) is proved sound in Rocq against a small-step model of the VM's stack "
